@@ -41,16 +41,36 @@ func keyDump(k key.Key, err error) string {
 func execSig(op string, a []string) string {
 	switch op {
 	case "sig.topublic":
+		// deriving a key leaves the key it was derived from as it was (members, their Go types, the order of key_ops)
 		k := keyFromToks(a[1:])
+		before := fmt.Sprintf("%#v", k)
+		var pub key.Key
+		var err error
 		if a[0] == "ed25519" {
-			return keyDump(ed25519.ToPublicKey(k))
+			pub, err = ed25519.ToPublicKey(k)
+		} else {
+			pub, err = ecdsa.ToPublicKey(k)
 		}
-		return keyDump(ecdsa.ToPublicKey(k))
+		if fmt.Sprintf("%#v", k) != before {
+			return "SOURCE-KEY-CHANGED " + before + " -> " + fmt.Sprintf("%#v", k)
+		}
+		return keyDump(pub, err)
 	case "sig.compress":
-		return keyDump(ecdsa.ToCompressedKey(keyFromToks(a)))
+		k := keyFromToks(a)
+		before := fmt.Sprintf("%#v", k)
+		c, err := ecdsa.ToCompressedKey(k)
+		if fmt.Sprintf("%#v", k) != before {
+			return "SOURCE-KEY-CHANGED " + before + " -> " + fmt.Sprintf("%#v", k)
+		}
+		return keyDump(c, err)
 	case "sig.verifierkey":
 		// the key a verifier reports: never private material
-		v, err := keyFromToks(a).Verifier()
+		k := keyFromToks(a)
+		before := fmt.Sprintf("%#v", k)
+		v, err := k.Verifier()
+		if fmt.Sprintf("%#v", k) != before {
+			return "SOURCE-KEY-CHANGED " + before + " -> " + fmt.Sprintf("%#v", k)
+		}
 		if err != nil {
 			return "err"
 		}
@@ -198,6 +218,13 @@ func genSigOps(r *rand.Rand, n int) []string {
 		if i%9 == 4 { // sizes at which a buffered / pre-hashed implementation would change gear
 			data = randBytes(r, []int{4096, 4097, 8191, 8192, 8193, 16384, 16385, 32768}[r.Intn(8)])
 		}
+		if i%7 == 2 { // messages that have the length of a digest (an implementation must hash them all the same), every algorithm in turn
+			alg = sigAlgs[(i/7)%len(sigAlgs)]
+			data = randBytes(r, []int{32, 48, 64, 20, 28}[(i/7/len(sigAlgs))%5])
+			if (i/7/len(sigAlgs))%2 == 0 { // the digest size of the algorithm itself
+				data = randBytes(r, map[int]int{iana.AlgorithmES256: 32, iana.AlgorithmES384: 48, iana.AlgorithmES512: 64, iana.AlgorithmEdDSA: 64}[alg])
+			}
+		}
 		dataTok := func(d []byte) string { return hx(d) }
 		if i%11 == 5 { // the empty message, handed over as a nil slice (RFC 8032 test 1; an empty bytes.Buffer)
 			data = []byte{}
@@ -219,6 +246,10 @@ func genSigOps(r *rand.Rand, n int) []string {
 			k := genEdKey(r)
 			extras := genCommonExtras(r, alg, sigOpsChoices)
 			form := r.Intn(3)
+			if i%7 == 4 { // private keys whose key_ops is a key.Ops value naming sign (and verify): derivations must not touch it
+				extras = []string{"int:4", []string{"ops[ 1 2 ]", "ops[ 1 ]", "ops[ 2 1 ]"}[(i/7)%3]}
+				form = (i / 7) % 2
+			}
 			toks := k.tokens(r, form, extras)
 			if r.Intn(12) == 0 { // mismatching embedded public key / wrong sizes
 				k2 := genEdKey(r)
@@ -254,6 +285,10 @@ func genSigOps(r *rand.Rand, n int) []string {
 		k := genEcScalar(r, alg)
 		extras := genCommonExtras(r, alg, sigOpsChoices)
 		form := r.Intn(5)
+		if i%7 == 4 {
+			extras = []string{"int:4", []string{"ops[ 1 2 ]", "ops[ 1 ]", "ops[ 2 1 ]"}[(i/7)%3]}
+			form = (i / 7) % 2
+		}
 		toks := k.tokens(r, form, extras)
 		if r.Intn(8) == 0 { // x of another key, off-curve x, or an embedded coordinate that is only a tail of the true one
 			k2 := genEcScalar(r, alg)
